@@ -29,7 +29,6 @@ type Ctx struct {
 	Stats map[string]int
 	Fails []string // monitor failures (model-free property oracles)
 	lines int
-	knownDrop int
 }
 
 func (c *Ctx) Emit(format string, a ...interface{}) {
